@@ -159,7 +159,8 @@ def _task(draw, npool):
         return {'name': draw(st.integers(0, npool - 1)), 'ctor': draw(st.sampled_from(CODE_CTORS)),
                 'cmds': [draw(_cmd(startable=True)), draw(_cmd(startable=True))],
                 'tool': draw(st.sampled_from([None] * 5 + MISSING))}
-    cmds = draw(st.lists(_cmd(), min_size=1, max_size=5))
+    # (a task without any command is legal: nothing fails, it is DONE with no return code)
+    cmds = draw(st.lists(_cmd(), min_size=0 if draw(st.integers(0, 19)) == 7 else 1, max_size=5))
     ctors = ['clis', 'clis', 'closure'] + (['cli', 'cli', 'factory'] if len(cmds) == 1 else [])
     return {'name': draw(st.integers(0, npool - 1)), 'ctor': draw(st.sampled_from(ctors)),
             'cmds': cmds}
